@@ -676,12 +676,21 @@ func ConvertToSameType(leftType, rightType interface{}) (interface{}, interface{
 		return leftType, rightType
 	}
 
+	// keep the original values when the conversion fails: ConvertExpToType returns a zero value
+	// with the error, and comparing that zero made `2.5 = 0` true.
+	var converted interface{}
 	var err error
 
 	if unsafe.Sizeof(leftType) > unsafe.Sizeof(rightType) {
-		rightType, err = ConvertExpToType(rightType, leftType)
+		converted, err = ConvertExpToType(rightType, leftType)
+		if err == nil {
+			rightType = converted
+		}
 	} else {
-		leftType, err = ConvertExpToType(leftType, rightType)
+		converted, err = ConvertExpToType(leftType, rightType)
+		if err == nil {
+			leftType = converted
+		}
 	}
 
 	if err != nil {
